@@ -177,4 +177,16 @@ VARIANTS = [
     dict(id="c05-score-branches-swapped", fire=["C05"], file=BTF, old="                if team_q.rank > team_i.rank:\n                    s = 1.0", new="                if team_q.rank < team_i.rank:\n                    s = 1.0"),
     dict(id="c05-other-players-share", fire=["C05"], file=PL, old="                mu += (sigma**2 / team_i.sigma_squared) * omega", new="                mu += (team_i.team[0].sigma**2 / team_i.sigma_squared) * omega"),
     dict(id="c05-pl-own-stage-sign", fire=["C05"], file=PL, old="                        omega += (1 - i_mu_over_ce_over_sum_q) / a[q]", new="                        omega -= (1 - i_mu_over_ce_over_sum_q) / a[q]"),
+    # ------------------------------------------------------------------ finite-ordering rules (C04 R4.5, C05 R5.3, C11 R11.4) and later additions
+    dict(id="c04-tie-lost-in-rank-numbers", fire=["C04", "C05"], all5=True, file=PL, old="                if team_scores[index - 1] < team_scores[index]:", new="                if team_scores[index - 1] <= team_scores[index]:"),
+    dict(id="c04-false-tie-in-rank-numbers", fire=["C04", "C05"], file=BTF, old="                if team_scores[index - 1] < team_scores[index]:\n                    s = index", new="                if team_scores[index - 1] < team_scores[index]:\n                    s = s"),
+    dict(id="c11-rank-inversion-by-n", fire=["C11"], file=TMF, old="        max_ordinal = max(ranks)\n        ranks = [abs(_ - max_ordinal) + 1 for _ in ranks]", new="        ranks = [n - _ + 1 for _ in ranks]"),
+    dict(id="c11-silent-rank-inversion-without-abs", silent=["C11"], file=TMF, old="        ranks = [abs(_ - max_ordinal) + 1 for _ in ranks]", new="        ranks = [max_ordinal - _ + 1 for _ in ranks]"),
+    dict(id="c11-rank-data-ties-split", fire=["C11"], file=MCOMMON, old="            or arg_sorted_vector[index] != arg_sorted_vector[index + 1]", new="            or arg_sorted_vector[index] <= arg_sorted_vector[index + 1]"),
+    dict(id="c11-silent-rank-data-max-method", silent=["C11"], file=MCOMMON, old="                    index + 1 - duplicate_count + 1", new="                    index + 1"),
+    dict(id="c15-copy-before-resolution", fire=["C15", "C06"], all5=True, file=PL, old="        original_teams = copy.deepcopy(teams)", new="        original_teams = copy.deepcopy(teams) if limit_sigma else teams"),
+    dict(id="c07-team-identified-by-value", fire=["C07"], file=BTF, old="                if q == i:\n                    continue", new="                if team_q == team_i:\n                    continue"),
+    dict(id="c09-pair-skipped-by-value", fire=["C09"], file=PL,
+         old="        pairwise_probabilities = []\n        for pair_a, pair_b in itertools.permutations(teams, 2):\n            pair_a_subset = self._calculate_team_ratings([pair_a])\n            pair_b_subset = self._calculate_team_ratings([pair_b])\n            mu_a = pair_a_subset[0].mu\n            sigma_a = pair_a_subset[0].sigma_squared\n            mu_b = pair_b_subset[0].mu\n            sigma_b = pair_b_subset[0].sigma_squared\n            pairwise_probabilities.append(\n                phi_major(\n                    (mu_a - mu_b) / math.sqrt(n",
+         new="        pairwise_probabilities = []\n        for pair_a, pair_b in itertools.permutations(teams, 2):\n            if pair_a == pair_b:\n                pairwise_probabilities.append(0.0)\n                continue\n            pair_a_subset = self._calculate_team_ratings([pair_a])\n            pair_b_subset = self._calculate_team_ratings([pair_b])\n            mu_a = pair_a_subset[0].mu\n            sigma_a = pair_a_subset[0].sigma_squared\n            mu_b = pair_b_subset[0].mu\n            sigma_b = pair_b_subset[0].sigma_squared\n            pairwise_probabilities.append(\n                phi_major(\n                    (mu_a - mu_b) / math.sqrt(n"),
 ]
